@@ -23,7 +23,7 @@ ASSUMPTIONS = [
     'class-level metadata changes reaching (or not) already copied per-instance Parameters is not judged (statement is silent)',
     'parameters declared per_instance=False are exempt from the metadata-isolation clause (they opted out)',
 ]
-REQUIRED = {'composite_ops': 60, 'view_checks': 20000, 'instances': 1000, 'class_sets': 500, 'metadata_edits': 500, 'inplace_mutations': 500, 'instance_updates': 150,
+REQUIRED = {'class_sets_by_deprecated_alias': 50, 'class_sets_by_update': 50, 'composite_ops': 60, 'view_checks': 20000, 'instances': 1000, 'class_sets': 500, 'metadata_edits': 500, 'inplace_mutations': 500, 'instance_updates': 150,
             'falsy_instance_cases': 100, 'ctor_pending_references': 50, 'shared_blocks': 30}
 
 _st = {}
